@@ -769,6 +769,7 @@ func C07(run *mon.Run) {
 	run.Assumptions = []string{"delivery model of DESIGN.md A.1: every broadcast lands in the same round at every honest receiver, FIFO per sender; messages emitted at a round's first instant land in that round, reactive ones in that round or the next", "at most t Byzantine participants; liveness is not claimed"}
 	dkgDrive(run, "C07")
 	dkgLargeGroups(run)
+	dkgCraftedDealings(run)
 	run.Require(run.Counter("end.ok") >= 50 && run.Counter("end.dkg-failure") >= 50, "both honest outcomes (keys / DKG failure) not seen at least 50 times")
 }
 
